@@ -153,3 +153,18 @@ func VH_tokenizer() {
 	vAssert((checkScriptParses(0, s) != nil) == bad, "checkScriptParses agrees with the tokenizer")
 	vReach("end")
 }
+
+// C06(1): scriptNum.Bytes never panics and is minimal for every int64 (ScriptBuilder.AddInt64 takes any int64)
+//verif:opts reach=end
+func VH_scriptnum_bytes_total() {
+	x := vNondetI64("x")
+	b := scriptNum(x).Bytes()
+	vAssert(len(b) <= 9, "at most 9 bytes")
+	vAssert(specMinimal(b), "minimal encoding")
+	if x != -1<<63 {
+		vAssert(specScriptNum(b) == x, "decode(Bytes(x)) == x")
+	} else {
+		vAssert(len(b) == 9 && b[7] == 0x80 && b[8] == 0x80, "-2^63 encodes as magnitude 2^63 plus a sign byte")
+	}
+	vReach("end")
+}
